@@ -203,13 +203,21 @@ C13_CORPUS = [
     (1, 'type T(a:T,b)'),
     (2, 'method M()->()'),
     (3, 'error E(a:T)'),
+    (0, '?T'),
+    (0, '[]T'),
+    (0, '(a)'),
+    (0, '(a,b)'),
+    (0, '(a:T)'),
 ]
 PRODN = ["type", "typedef", "method", "error"]
 C13_MUT_QUICK = {(20, 0), (20, 9), (21, 5), (22, 2), (25, 11), (25, 5), (26, 9), (27, 6)}
 for si, (kind, text) in enumerate(C13_CORPUS):
     short = len(text) <= 14
     for pos in range(len(text)):
-        add("C13", "p13::idl_mut_s%02d_p%02d" % (si, pos), Q if (si, pos) in C13_MUT_QUICK else T, 900, 8, build="prod",
+        # No instance of this family has ever produced a verdict (15-25 min / 8 GB each, also for 2-5 byte texts and with
+        # core::str::from_utf8 stubbed: winnow's alt back-tracking builds and drops Vec/Box trees, DESIGN 12.10): tiers=() keeps
+        # the bodies in the native selftest, where they cross-check the reference recognisers against the real parser.
+        add("C13", "p13::idl_mut_s%02d_p%02d" % (si, pos), (), 900, 8, build="prod",
             body="crate::p13::idl_mut::<%d, %d>" % (si, pos), unwind=16 if short else 42, batch=0 if short else 12,
             inputs="%s production on the text %r with an arbitrary ASCII byte at position %d" % (PRODN[kind], text, pos),
             bound="one corpus text (<= 40 bytes) with one symbolic byte, vs the reference recogniser", role="idl_mut")
@@ -245,7 +253,7 @@ for kind, what in C02_KINDS:
                 tiers = ()
             if kind == "enqueue_str_at" and (L, P) not in ((32, 7), (32, 12), (8, 8), (24, 3)):
                 continue   # > 11 min each: four instances in the thorough tier
-            add("C02", "p02::%s_l%d_p%02d" % (kind, L, P), tiers, 600 if quick else 1500, 8,
+            add("C02", "p02::%s_l%d_p%02d" % (kind, L, P), tiers, 600 if quick else 1500, 12, est_gb=4,
                 body="crate::p02::%s::<%d, %d>" % (kind, L, P), unwind=74,
                 inputs="write buffer len=%d, fill position=%d (concrete); %s" % (L, P, what),
                 bound="one operation from the concrete state (len=%d,pos=%d) of the small build (STEP=8, MAX=32)" % (L, P),
@@ -408,10 +416,10 @@ for i, mname in enumerate(C12_M):
                 bound="one chain of two calls enqueued on a fresh connection (128/128 build)", role="proxy_ext")
 
 # ---------------------------------------------------------------------------------------- C06
-add("C06", "p06::stream_counts_ready", Q, 900, 10, body="crate::p06::stream_counts::<3, false>", unwind=20,
+add("C06", "p06::stream_counts_ready", Q, 1200, 16, est_gb=4, body="crate::p06::stream_counts::<3, false>", unwind=20,
     inputs="owed reply count 0..=3 symbolic; per receive a symbolic outcome in {continuing reply, final reply (continues absent), final reply (continues=false), method error, transport error}; up to 6 receives",
     bound="real ReplyStream::poll_next polled up to 8 times; receive futures always ready")
-add("C06", "p06::stream_counts_pending", Q, 1200, 10, body="crate::p06::stream_counts::<2, true>", unwind=20,
+add("C06", "p06::stream_counts_pending", Q, 1500, 16, est_gb=5, body="crate::p06::stream_counts::<2, true>", unwind=20,
     inputs="owed reply count 0..=2 symbolic; outcomes as above; each receive future is Pending 0 or 1 times (symbolic) before completing",
     bound="real ReplyStream::poll_next polled up to 14 times")
 
